@@ -70,6 +70,11 @@ CLAIMED = {
    note="'Did not panic / abort' is an observation of the harness (catch_unwind, exit status, signals), not something a specification decides; the specification supplies the input universes' totality and the verdict. Native stack exhaustion, non-termination (4 s watchdog) and memory exhaustion are outside the claim: skipped, never violations.",
    technique="TLA+ totality check of the reader specification by TLC; TLC trace validation of recorded robustness runs",
    ref="DESIGN.md section 5, C07"),
+ "C18": dict(
+   text="Repl.tla models the loop over input lines (pending text, submissions); 'closed' is defined through the specification's reader (the text lexes and its nesting depth is <= 0). TLC checks on the specification that a form is submitted exactly with its last line for every split inside lists (MCRepl; the model checker showed that a break at depth 0, e.g. after a quote mark, ends a submission by the statement itself). The REPL's own completeness test (hook H1) is swept over every string up to length 5 (6 thorough) over the alphabet ( ) \" ; newline # \\ | a space and judged by ReplTrace.tla. Random form sequences incl. failing forms are fed to the built binary over a pipe under 3 random line splittings (comments with parentheses and quotes at line ends, empty lines); ReplTrace.tla re-runs Repl.tla on the lines (submission boundaries, tokens of each submission) and compares stdout/stderr with the transcript of the same forms evaluated one after another through the library interface.",
+   note="Trusted: pipe driver (banner and farewell stripped, stdout and stderr compared separately), format!/error Display as the printed forms. Sessions are kept small (forms <= 160 characters) because the trace specification re-lexes the pending text at every line. Unterminated strings/|identifiers| at a line break are outside the claim.",
+   technique="TLA+ REPL state machine over the reader specification, TLC law checking, TLC trace validation of the hook sweep and of binary sessions",
+   ref="DESIGN.md section 5, C18"),
 }
 PENDING_REASON = "no check is registered for this property yet: the specification module and binding for it are still being built (see DESIGN.md section 10); nothing is claimed"
 
